@@ -91,6 +91,9 @@ class C11(Check):
             beh = {'boom': {'kind': 'raise_exc', 'exc': exc, 'marker': 'MARKER-c11-zq'}, 'boom2': {'kind': 'raise_exc', 'exc': exc, 'marker': 'MARKER-c11-zq'}}
             out.append({'kind': 'server', 'max_batch_size': None, 'behaviours': beh, 'middlewares': [], 'handlers': None,
                         'text': t([{'jsonrpc': '2.0', 'id': 1, 'method': 'boom'}, {'jsonrpc': '2.0', 'id': 2, 'method': 'boom2'}, {'jsonrpc': '2.0', 'method': 'boom'}])})
+            # ... and once more in front of a recording error handler (which also records the class of the error's cause)
+            out.append({'kind': 'server', 'max_batch_size': None, 'behaviours': beh, 'middlewares': [], 'handlers': {'generic': [{'kind': 'identity'}], 'codes': [], 'key_order': 'generic-first'},
+                        'text': t([{'jsonrpc': '2.0', 'id': 1, 'method': 'boom'}, {'jsonrpc': '2.0', 'method': 'boom2'}])})
         # request texts nested far beyond what the JSON decoder follows (outside C01's 64 levels: whether the dispatcher answers or raises
         # here is not asserted - only that both halves do the same)
         for raw in ('[' * 100000, '{"a":' * 50000, '{"jsonrpc":"2.0","id":1,"method":"echo","params":' + '[' * 100000 + ']' * 100000 + '}', '[' * 3000 + ']' * 3000):
